@@ -29,8 +29,6 @@ import RdfModel.Spec.JsonLdFragment
 namespace RdfModel.JLEnc
 open RdfModel RdfModel.Desc RdfModel.JL
 
-abbrev Str := List Nat
-
 /-- EncoderConfig: base, prefixes, buffered, blank node labels (`bnStringProvider`) -/
 structure Cfg (β : Type) where
   base : Option Str
